@@ -9,6 +9,7 @@ from ..state import Analysis, State, bind_call, SCHED_PARAMS, sched_event_type, 
 from ..norm import Normalizer, cmp_norm, single_defs, FrameEnv
 from ..devices import canon_text as dv_canon
 from .. import inventory as inv
+from .. import devices as dv
 
 EXPLANATION = '''
 Static analysis (AST + per-method control-flow supergraph + small typestate) of simprocesd/model/simulation.py.
@@ -527,6 +528,7 @@ def check(ctx):
     # ---- C01.8 unpause time -------------------------------------------------------
     o8 = Ob('C01.8', 'K6', 'an unpaused event is re-inserted at time + now - paused_at (hence never before now)')
     obs.append(o8)
+    dv.check_defaults(ctx, o8, [('Environment', 'schedule_event', 'event_type')])      # (documented: events are low priority unless said otherwise)
     rhs8 = unpause_time_form(P, o8)
     # ---- C01.11 the resumed time is not before now, also after rounding ----------------------------------------------------------
     o11 = Ob('C01.11', 'K6', 'the resumed time is computed as now + (time - paused_at): the remaining time, which is >= 0 exactly, is formed first and added to '
